@@ -192,7 +192,11 @@ func parPhase(w *world, tc *caseT) *mismatch {
 	if m, _ := bad.Load().(*mismatch); m != nil {
 		return m
 	}
-	if m := w.compare(len(tc.Steps)-1, final, nil); m != nil {
+	m, l := w.compare(len(tc.Steps)-1, final)
+	if l != nil {
+		rp.Bug("late after the concurrent phase although no deadline is pending: %s", l.msg)
+	}
+	if m != nil {
 		m.what = "after the concurrent phase (" + parDesc(par) + "): " + m.what
 		return m
 	}
